@@ -168,6 +168,13 @@ class ChunkLoopTrans(LoopTrans):
             raise TransformationError("Cannot apply a ChunkLoopTrans to "
                                       "a loop with a step size of 0.")
 
+        if chunk_size % abs(int(node.step_expr.value)) != 0:
+            raise TransformationError(
+                f"Cannot apply a ChunkLoopTrans to a loop with a step size "
+                f"({node.step_expr.value}) that does not divide the chosen "
+                f"chunk size ({chunk_size}): the chunks would not start on "
+                f"iterations of the original loop.")
+
         if len(node.loop_body.walk(CodeBlock)) != 0:
             raise TransformationError("Cannot apply a ChunkLoopTrans to "
                                       "a loop which contains a CodeBlock "
